@@ -139,6 +139,8 @@ Definition complete (st : bst) (id : nat) : bst :=
   end.
 
 (* ---- commitBlock ---- *)
+Definition file_segs (s : fs C) (fid : nat) : list seg :=
+  match i_node C (get_ino C s fid) with IFile fn => segs fn | IDir _ => [] end.
 Definition seg_at (s : fs C) (fid i : nat) : seg :=
   match i_node C (get_ino C s fid) with IFile fn => nthseg (segs fn) i | IDir _ => Mem [] None end.
 Definition set_seg_at (s : fs C) (fid i : nat) (x : seg) : fs C :=
@@ -152,6 +154,7 @@ Fixpoint assign_tokens (sync : bool) (refs : list (nat * nat)) (st : bst) (boff 
   match refs with
   | [] => (st, Some (rev acc, boff))
   | (fid, i) :: r =>
+      if negb (i <? List.length (file_segs (fsys st) fid)) then (st, None) else   (* refs always name existing segments *)
       match seg_at (fsys st) fid i with
       | Mem b tok =>
           let busy := match tok with Some t => tok_pending (pends st) t | None => false end in
@@ -224,8 +227,6 @@ Fixpoint flush_segs (sync : bool) (fid i : nat) (l : list seg) (st : bst) (ok : 
       else flush_segs sync fid (S i) r st ok (pending ++ [(fid, i)]) (plen + n)
   end.
 
-Definition file_segs (s : fs C) (fid : nat) : list seg :=
-  match i_node C (get_ino C s fid) with IFile fn => segs fn | IDir _ => [] end.
 
 (* flush(names) of directory d; recursive=true descends into sub-directories (fuel: table size) *)
 Fixpoint flush_dir (fuel : nat) (sync short recursive : bool) (st : bst) (d : nat) : bst * bool :=
